@@ -4,8 +4,11 @@ import (
 	"context"
 	"crypto/elliptic"
 	"crypto/x509"
+	"encoding/pem"
 	"fmt"
 	"net"
+	"os"
+	"path/filepath"
 	"sort"
 	"strings"
 	"sync/atomic"
@@ -297,7 +300,9 @@ func TestC34(t *testing.T) {
 		"every TRC option list {none, zero, T1, T2, T3(short-lived root), T1+T2, T2+T1, zero+T1, T3+T2, T-without-roots(+T2)} x verification times at -1s/exact/+1s around every " +
 		"notBefore/notAfter of the chain and its root plus interior points; part B: TRC histories {base; base+update(grace); base expiring inside " +
 		"the grace period} x clock instants around every TRC/grace boundary x every chain placed in the DB or offered by the fetcher (single, all in " +
-		"DB, all fetched) through the real FetchingProvider + sqlite DB in a synctest bubble. distinct key = chain, TRC list / history, time, placement; " +
+		"DB, all fetched) through the real FetchingProvider + sqlite DB in a synctest bubble; part C: trust.LoadChains from directories holding several " +
+		"chain files (every ordered pair and triple of representative good/bad chains - thorough: every ordered pair of all chains - and all chains " +
+		"forwards/backwards) under the same histories and instants, judging the DB content and what GetChains hands out afterwards. distinct key = chain, TRC list / history, time, placement; " +
 		"non-trivial = chain well-formed or time inside some window"
 	pool := c34MakePool()
 	chains := c34Chains(pool)
@@ -430,6 +435,51 @@ type c34History struct {
 	predVal   cppki.Validity
 	latest    []*c34Node
 	pred      []*c34Node
+}
+
+// c34Expect: may the provider (GetChains, LoadChains) trust chain c at instant now under TRC history h?
+func c34Expect(h *c34History, now time.Time, c *c34Chain) (int, string) {
+	if len(h.signed) == 0 {
+		return c34Reject, "no-trc"
+	}
+	in, b := c34In(h.latestVal, now)
+	if !in && !b {
+		return c34Reject, "latest-trc-not-valid"
+	}
+	v, why := c34Spec(c, h.latest, now)
+	if v == c34Accept && b {
+		return c34EitherV, "exact-trc-validity-boundary"
+	}
+	if v != c34Reject && h.grace != nil && h.pred == nil {
+		if gin, gb := c34In(*h.grace, now); gin || gb {
+			return c34EitherV, "predecessor-missing-inside-grace"
+		}
+	}
+	if v != c34Reject {
+		return v, "latest:" + why
+	}
+	if h.grace == nil {
+		return v, "latest:" + why
+	}
+	gin, gb := c34In(*h.grace, now)
+	if !gin && !gb {
+		return v, "after-grace:" + why
+	}
+	if h.pred == nil {
+		// the predecessor is not in the DB: the provider cannot evaluate the grace period at all
+		return c34EitherV, "predecessor-missing-inside-grace"
+	}
+	pv, pwhy := c34Spec(c, h.pred, now)
+	if pv == c34Reject {
+		return c34Reject, "in-grace-neither-trc:" + pwhy
+	}
+	if b || gb || pv == c34EitherV {
+		return c34EitherV, "boundary"
+	}
+	if pin, _ := c34In(h.predVal, now); !pin {
+		return c34EitherV, "predecessor-expired-inside-grace"
+	}
+	return c34Accept, "predecessor-in-grace"
 }
 
 var c34DBCtr atomic.Int64
@@ -584,50 +634,7 @@ func c34PartB(t *testing.T, r *mc.Run, p *c34Pool, all []*c34Chain) {
 				}
 			}
 			// oracle
-			expect := func(c *c34Chain) (int, string) {
-				h := j.h
-				if len(h.signed) == 0 {
-					return c34Reject, "no-trc"
-				}
-				in, b := c34In(h.latestVal, now)
-				if !in && !b {
-					return c34Reject, "latest-trc-not-valid"
-				}
-				v, why := c34Spec(c, h.latest, now)
-				if v == c34Accept && b {
-					return c34EitherV, "exact-trc-validity-boundary"
-				}
-				if v != c34Reject && h.grace != nil && h.pred == nil {
-					if gin, gb := c34In(*h.grace, now); gin || gb {
-						return c34EitherV, "predecessor-missing-inside-grace"
-					}
-				}
-				if v != c34Reject {
-					return v, "latest:" + why
-				}
-				if h.grace == nil {
-					return v, "latest:" + why
-				}
-				gin, gb := c34In(*h.grace, now)
-				if !gin && !gb {
-					return v, "after-grace:" + why
-				}
-				if h.pred == nil {
-					// the predecessor is not in the DB: the provider cannot evaluate the grace period at all
-					return c34EitherV, "predecessor-missing-inside-grace"
-				}
-				pv, pwhy := c34Spec(c, h.pred, now)
-				if pv == c34Reject {
-					return c34Reject, "in-grace-neither-trc:" + pwhy
-				}
-				if b || gb || pv == c34EitherV {
-					return c34EitherV, "boundary"
-				}
-				if pin, _ := c34In(h.predVal, now); !pin {
-					return c34EitherV, "predecessor-expired-inside-grace"
-				}
-				return c34Accept, "predecessor-in-grace"
-			}
+			expect := func(c *c34Chain) (int, string) { return c34Expect(j.h, now, c) }
 			candidates := append(append([]*c34Chain{}, j.pl.inDB...), j.pl.fetch...)
 			// the fetcher is only consulted when the DB has nothing verifiable; completeness for fetched chains is only
 			// demanded in that situation
@@ -685,7 +692,225 @@ func c34PartB(t *testing.T, r *mc.Run, p *c34Pool, all []*c34Chain) {
 		r.Capped("budget reached in the provider part")
 	}
 	r.Extra["provider_unconstrained_cases"] = eitherSeen.Load()
+	c34PartLoad(t, r, all, hists)
 	r.Sample(map[string]any{"history": "base+update", "now_h": 110, "placement": "db:good-A", "spec": "handed out: verifies against the predecessor inside the grace period"})
 	r.Sample(map[string]any{"history": "base+update", "now_h": 120.1, "placement": "fetch:good-A", "spec": "withheld: grace period over, root A replaced"})
 	r.Sample(map[string]any{"chain": "good-imp", "trc_options": "T1", "spec": "rejected: CA issued by an impostor root with root A's subject"})
+}
+
+// ---- part C: trust.LoadChains from directories holding several chain files in every order
+
+func c34PEM(c *c34Chain) []byte {
+	var out []byte
+	for _, x := range c.x509() {
+		out = append(out, pem.EncodeToMemory(&pem.Block{Type: "CERTIFICATE", Bytes: x.Raw})...)
+	}
+	return out
+}
+
+func c34PartLoad(t *testing.T, r *mc.Run, all []*c34Chain, hists []c34History) {
+	byName := map[string]*c34Chain{}
+	var files []*c34Chain // everything that can be written as a non-empty PEM bundle
+	for _, c := range all {
+		byName[c.name] = c
+		if len(c.certs) > 0 {
+			files = append(files, c)
+		}
+	}
+	pick := func(names ...string) []*c34Chain {
+		var out []*c34Chain
+		for _, n := range names {
+			if byName[n] == nil {
+				r.HarnessError("no chain %q", n)
+				continue
+			}
+			out = append(out, byName[n])
+		}
+		return out
+	}
+	rep := pick("good-B", "good-A", "good-A2", "good-X", "good-imp", "as-expires-105", "as-forged-signature", "ca-forged-signature",
+		"as-A-with-ca-B", "as-notafter-after-ca", "three-certs")
+	rep3 := pick("good-B", "good-X", "good-A", "good-imp", "as-forged-signature")
+	var seqs [][]*c34Chain
+	pairsOf := rep
+	if mc.Thorough() {
+		pairsOf = files
+	}
+	for _, a := range pairsOf {
+		for _, b := range pairsOf {
+			if a != b {
+				seqs = append(seqs, []*c34Chain{a, b})
+			}
+		}
+	}
+	triplesOf := rep3
+	if mc.Thorough() {
+		triplesOf = rep
+	}
+	for _, a := range triplesOf {
+		for _, b := range triplesOf {
+			for _, c := range triplesOf {
+				if a != b && b != c && a != c {
+					seqs = append(seqs, []*c34Chain{a, b, c})
+				}
+			}
+		}
+	}
+	bulk := len(seqs)
+	rev := append([]*c34Chain{}, files...)
+	for i, j := 0, len(rev)-1; i < j; i, j = i+1, j-1 {
+		rev[i], rev[j] = rev[j], rev[i]
+	}
+	seqs = append(seqs, files, rev)
+	// one directory per sequence; file names sort in sequence order (LoadChains walks the sorted glob)
+	root := t.TempDir()
+	dirs := make([]string, len(seqs))
+	for i, sq := range seqs {
+		dirs[i] = filepath.Join(root, fmt.Sprintf("seq%05d", i))
+		if err := os.MkdirAll(dirs[i], 0o755); err != nil {
+			r.HarnessError("mkdir: %v", err)
+			return
+		}
+		for k, c := range sq {
+			if err := os.WriteFile(filepath.Join(dirs[i], fmt.Sprintf("%03d-%s.pem", k, c.name)), c34PEM(c), 0o644); err != nil {
+				r.HarnessError("write: %v", err)
+				return
+			}
+		}
+	}
+	times := map[string][]float64{
+		"base":                       {50, 301},
+		"base+update":                {99, 110, 121},
+		"shortbase+update":           {115},
+		"update-without-predecessor": {110, 121},
+		"no-trc":                     {50},
+	}
+	type job struct {
+		h   *c34History
+		at  float64
+		seq int
+	}
+	var jobs []job
+	for i := range hists {
+		h := &hists[i]
+		for ti, at := range times[h.name] {
+			for si := range seqs {
+				if !mc.Thorough() && si < bulk && !(h.name == "base+update" && at > 100) && !(h.name == "base" && ti == 0) {
+					continue // quick: the pair/triple sequences under the valid base TRC and inside/after the grace period
+				}
+				jobs = append(jobs, job{h, at, si})
+			}
+		}
+	}
+	r.Extra["loadchains_sequences"] = len(seqs)
+	r.Extra["loadchains_cases"] = len(jobs)
+	mc.ParallelFor(len(jobs), func(i int) {
+		if r.OutOfBudget() {
+			return
+		}
+		j := jobs[i]
+		sq := seqs[j.seq]
+		synctest.Test(t, func(t *testing.T) {
+			now := c34H(j.at)
+			time.Sleep(time.Until(now))
+			d, err := sqlite.New(fmt.Sprintf("c34-load-%d", c34DBCtr.Add(1)), &db.SqliteConfig{InMemory: true, MaxOpenReadConns: 2})
+			if err != nil {
+				r.HarnessError("sqlite: %v", err)
+				return
+			}
+			defer d.Close()
+			ctx := context.Background()
+			for _, s := range j.h.signed {
+				if _, err := d.InsertTRC(ctx, s); err != nil {
+					r.HarnessError("InsertTRC: %v", err)
+					return
+				}
+			}
+			var lerr error
+			if pn := mc.Safely(func() { _, lerr = trust.LoadChains(ctx, dirs[j.seq], d) }); pn != nil {
+				r.HarnessError("LoadChains panicked: %v", pn)
+				return
+			}
+			stored := map[string]bool{}
+			inDB, err := d.Chains(ctx, trust.ChainQuery{})
+			if err != nil {
+				r.HarnessError("Chains: %v", err)
+				return
+			}
+			for _, g := range inDB {
+				stored[string(g[0].Raw)+string(g[1].Raw)] = true
+			}
+			prov := trust.FetchingProvider{DB: d, Recurser: trust.LocalOnlyRecurser{}, Fetcher: &c34Fetcher{}, Router: c34Router{}}
+			var got [][]*x509.Certificate
+			var gerr error
+			if pn := mc.Safely(func() { got, gerr = prov.GetChains(ctx, trust.ChainQuery{IA: addr.MustParseIA("1-ff00:0:111")}) }); pn != nil {
+				r.HarnessError("GetChains panicked: %v", pn)
+				return
+			}
+			handed := map[string]bool{}
+			for _, g := range got {
+				if len(g) == 2 {
+					handed[string(g[0].Raw)+string(g[1].Raw)] = true
+				}
+			}
+			var names []string
+			for _, c := range sq {
+				names = append(names, c.name)
+			}
+			order := strings.Join(names, " < ")
+			if len(sq) > 3 {
+				order = fmt.Sprintf("all %d chains, first %s", len(sq), sq[0].name)
+			}
+			known := 0
+			for pos, c := range sq {
+				v, why := c34Expect(j.h, now, c)
+				x := c.x509()
+				id := ""
+				if len(x) == 2 {
+					id = string(x[0].Raw) + string(x[1].Raw)
+				}
+				was, out := id != "" && stored[id], id != "" && handed[id]
+				if was {
+					known++
+				}
+				class := strings.SplitN(strings.SplitN(why, ":", 2)[0], "-of-", 2)[0]
+				if strings.Contains(why, "malformed") {
+					class = "malformed-chain"
+				} else if strings.Contains(why, "root-not-in-trc") {
+					class = "root-not-in-trc"
+				}
+				det := map[string]any{"history": j.h.name, "now_h": j.at, "directory_order": order, "position": pos, "chain": c.name,
+					"spec": why, "load_error": fmt.Sprint(lerr), "get_chains_error": fmt.Sprint(gerr)}
+				r.Case(fmt.Sprintf("C|%s|%v|%d|%d", j.h.name, j.at, j.seq, pos), true)
+				switch v {
+				case c34Reject:
+					if was {
+						r.Violation("loadchains-stored:"+class, det)
+					}
+					if out {
+						r.Violation("provider-handed-out:loaded:"+class, det)
+					}
+					r.Outcome("C-not-loaded:" + class)
+				case c34Accept:
+					if !was {
+						r.Violation("loadchains-ignored-verifiable-chain:"+class, det)
+					} else if !out && c.certs[0].c.Spec.IA == addr.MustParseIA("1-ff00:0:111") {
+						r.Violation("provider-withheld-verifiable-chain:loaded:"+class, det)
+					}
+					if was {
+						r.Outcome("C-loaded:" + class)
+					}
+				default:
+					r.Outcome(fmt.Sprintf("C-unconstrained(%s)-loaded=%v", class, was))
+				}
+			}
+			if len(stored) > known {
+				r.Violation("loadchains-stored:unknown-chain", map[string]any{"history": j.h.name, "now_h": j.at, "directory_order": order})
+			}
+		})
+	})
+	if r.OutOfBudget() {
+		r.Capped("budget reached in the LoadChains part")
+	}
+	r.Sample(map[string]any{"history": "base+update", "now_h": 121, "directory_order": "good-B < good-X < good-A", "spec": "only good-B loaded and handed out (X: root in no TRC, A: grace period over)"})
 }
